@@ -486,15 +486,31 @@ func (s *Sim) loop() {
 		}
 		def := en[0]
 		if s.cur != nil {
-			for _, g := range en {
+			for i, g := range en {
 				if g == s.cur {
 					def = g
+					// a goroutine that yielded explicitly (runtime.Gosched,
+					// time.Sleep) hands over: the default is its successor
+					if g.pend.phase == phPre && g.pend.kind == KYield && g.pend.label == "gosched" && len(en) > 1 {
+						def = en[(i+1)%len(en)]
+					}
 				}
 			}
 		}
 		idx := s.cfg.Chooser.Choose(s, en, def)
 		if idx < 0 || idx >= len(en) {
 			idx = 0
+		}
+		if s.steps > s.cfg.MaxSteps/2 && len(en) > 1 {
+			// Past half the step budget every strategy becomes a fair random
+			// walk (a pure function of the step count, so replayable): an
+			// unfair schedule starving a goroutine that others spin-wait for
+			// must not be mistaken for a livelock of the code.
+			x := uint64(s.steps)*0x9e3779b97f4a7c15 + 0x7f4a7c15
+			x ^= x >> 29
+			x *= 0xbf58476d1ce4e5b9
+			x ^= x >> 32
+			idx = int(x % uint64(len(en)))
 		}
 		g := en[idx]
 		c := 0
